@@ -105,6 +105,10 @@ class Check:
         wall = time.time() - self.t0
         if regen:
             self.regen_known(merge)
+        if os.environ.get("RLV_DUMP_FAILS"):
+            with open(os.environ["RLV_DUMP_FAILS"], "w") as f:
+                for cid, sig, case_obj, detail in self.failures:
+                    f.write(json.dumps({"cid": cid, "sig": sig, "case": case_obj, "detail": detail}, default=str) + "\n")
         known, titles = self.load_known()
         kf_hits, violations = {}, []
         for cid, sig, case_obj, detail in self.failures:
